@@ -77,6 +77,8 @@ type Machine struct {
 	symDecides int
 	guards     []*Term // active vp.SetIf conditions (guarded store writes)
 	marsh      []*marshalled
+	model      map[*Term]*big.Int // last satisfying assignment of the path condition (nil = none)
+	modelMemo  map[*Term]*Term
 	curRep    *EntryReport
 	curMu      *sync.Mutex
 }
@@ -97,6 +99,11 @@ func (m *Machine) addPC(c *Term) {
 	m.pc = append(m.pc, c)
 	if m.sol != nil {
 		m.sol.Assert(m.tb, c)
+	}
+	if m.model != nil {
+		if v, known := m.modelSays(c); !known || !v {
+			m.model = nil
+		}
 	}
 }
 
@@ -138,12 +145,31 @@ func (m *Machine) decide(c *Term) bool {
 		return take
 	}
 	nc := m.tb.Not(c)
-	vT, _ := m.sol.Check(m.tb, []*Term{c}, nil)
-	var vF Verdict
-	if vT == Unsat {
-		vF = Sat // the path condition is satisfiable, so the other side must be
-	} else {
+	var vT, vF Verdict
+	val, known := m.modelSays(c)
+	switch {
+	case known && val:
+		vT = Sat
 		vF, _ = m.sol.Check(m.tb, []*Term{nc}, nil)
+	case known && !val:
+		vF = Sat
+		var mod map[*Term]*big.Int
+		vT, mod = m.sol.Check(m.tb, []*Term{c}, m.tb.leafTerms())
+		if vT == Sat {
+			m.setModel(mod)
+		}
+	default:
+		var mod map[*Term]*big.Int
+		vT, mod = m.sol.Check(m.tb, []*Term{c}, m.tb.leafTerms())
+		if vT == Unsat {
+			vF = Sat // the path condition is satisfiable, so the other side must be
+			m.model = nil
+		} else {
+			if vT == Sat {
+				m.setModel(mod)
+			}
+			vF, _ = m.sol.Check(m.tb, []*Term{nc}, nil)
+		}
 	}
 	switch {
 	case vT != Unsat && vF != Unsat:
@@ -201,10 +227,17 @@ func (m *Machine) assume(c *Term) {
 		m.addPC(c)
 		return
 	}
-	v, _ := m.sol.Check(m.tb, []*Term{c}, nil)
-	if v == Unsat {
-		m.decisions = append(m.decisions, 0)
-		panic(pathEnd{kind: "assume"})
+	if val, known := m.modelSays(c); !(known && val) {
+		v, mod := m.sol.Check(m.tb, []*Term{c}, m.tb.leafTerms())
+		if v == Unsat {
+			m.decisions = append(m.decisions, 0)
+			panic(pathEnd{kind: "assume"})
+		}
+		if v == Sat {
+			m.setModel(mod)
+		} else {
+			m.model = nil
+		}
 	}
 	m.decisions = append(m.decisions, 1)
 	m.addPC(c)
